@@ -383,6 +383,8 @@ type FuncContract struct {
 	CountCall     map[string][]*Clause // per function-valued parameter: ghost counter (Label) += 1 at each call where the clause holds
 	InlineCallees map[string]bool
 	UseEnsures    map[string]map[string]bool // callee -> labels of the only postconditions assumed at its call sites
+	Instances     map[string]map[string][]Expr // callee -> label of a postcondition forall(k, "T", body) -> terms it is instantiated at
+	UseEnsuresAt  map[string]map[string]map[string]bool // own postcondition label -> callee -> labels (overrides UseEnsures for that obligation)
 	UseAll        []string // lemmas assumed in universally quantified form
 }
 
@@ -403,7 +405,7 @@ var clauseKeywords = map[string]bool{
 	"property": true, "model": true, "requires": true, "ensures": true, "loop": true,
 	"inline": true, "trusted": true, "safety": true, "pure": true, "assigns": true,
 	"let": true, "note": true, "method": true, "body": true, "use": true, "opt": true,
-	"assert": true, "purearg": true, "olet": true, "assumecb": true, "countcall": true, "oncall": true, "inlinecall": true, "useall": true, "useensures": true,
+	"assert": true, "purearg": true, "olet": true, "assumecb": true, "countcall": true, "oncall": true, "inlinecall": true, "useall": true, "useensures": true, "instances": true,
 }
 
 // ParseContractFile reads one verif_contracts.go file.
@@ -773,19 +775,62 @@ func (cs *ContractSet) addClause(c *FuncContract, kw, text, file string, line in
 			c.InlineCallees[normalizeFuncName(f)] = true
 		}
 	case "useensures":
+		// useensures [@ownlabel] <callee> <label>...
 		fs := strings.Fields(text)
+		at := ""
+		if len(fs) > 0 && strings.HasPrefix(fs[0], "@") {
+			at = fs[0][1:]
+			fs = fs[1:]
+		}
 		if len(fs) < 2 {
 			return fmt.Errorf("useensures needs a callee and at least one label")
 		}
-		if c.UseEnsures == nil {
-			c.UseEnsures = map[string]map[string]bool{}
-		}
 		k := normalizeFuncName(fs[0])
-		if c.UseEnsures[k] == nil {
-			c.UseEnsures[k] = map[string]bool{}
+		var set map[string]bool
+		if at == "" {
+			if c.UseEnsures == nil {
+				c.UseEnsures = map[string]map[string]bool{}
+			}
+			if c.UseEnsures[k] == nil {
+				c.UseEnsures[k] = map[string]bool{}
+			}
+			set = c.UseEnsures[k]
+		} else {
+			if c.UseEnsuresAt == nil {
+				c.UseEnsuresAt = map[string]map[string]map[string]bool{}
+			}
+			if c.UseEnsuresAt[at] == nil {
+				c.UseEnsuresAt[at] = map[string]map[string]bool{}
+			}
+			if c.UseEnsuresAt[at][k] == nil {
+				c.UseEnsuresAt[at][k] = map[string]bool{}
+			}
+			set = c.UseEnsuresAt[at][k]
 		}
 		for _, l := range fs[1:] {
-			c.UseEnsures[k][l] = true
+			set[l] = true
+		}
+	case "instances":
+		// instances <callee> <label> <expr> ; <expr> ...: the postcondition <label> of
+		// <callee> (a forall(k, "T", body)) is also assumed at these terms
+		fs := strings.Fields(text)
+		if len(fs) < 3 {
+			return fmt.Errorf("instances <callee> <label> <expr> ; <expr> ...")
+		}
+		rest := strings.TrimSpace(strings.TrimPrefix(strings.TrimSpace(strings.TrimPrefix(strings.TrimSpace(text), fs[0])), fs[1]))
+		if c.Instances == nil {
+			c.Instances = map[string]map[string][]Expr{}
+		}
+		k := normalizeFuncName(fs[0])
+		if c.Instances[k] == nil {
+			c.Instances[k] = map[string][]Expr{}
+		}
+		for _, part := range strings.Split(rest, ";") {
+			e, err := ParseExpr(strings.TrimSpace(part))
+			if err != nil {
+				return err
+			}
+			c.Instances[k][fs[1]] = append(c.Instances[k][fs[1]], e)
 		}
 	case "useall":
 		c.UseAll = append(c.UseAll, strings.Fields(text)...)
